@@ -157,8 +157,8 @@ add('ProveState::is_parent_of', r'^total_difficulty\(parent\)$', TD_INV)
 add('CheckPoints::number_of_last_check_point', r'^overflow\(-\)\(count, 1_u64\)$', 'inner is never empty: created with one element, grown only by add_check_points, shrunk only by remove_first_n_check_points(index) with index < len (C07.r5)')
 CPI = 'check_point_interval is the non-zero constant CHECK_POINT_INTERVAL passed to Peers::new'
 add('CheckPoints::add_check_points', r'^rem0\(start_number\)$', CPI)
-add('CheckPoints::add_check_points', r'^overflow\(-\)\(self\.2\.len\(\), 1_usize\)$', 'inner is never empty (C07.r5)')
-add('CheckPoints::add_check_points', r'^Index\(self\.2, Sub\(self\.2\.len\(\), 1_usize\)\.0\)$', 'len - 1 is a valid index of the non-empty inner')
+add('CheckPoints::add_check_points', r'^overflow\(-\)\(self\.inner\.len\(\), 1_usize\)$', 'inner is never empty (C07.r5)')
+add('CheckPoints::add_check_points', r'^Index\(self\.inner, Sub\(self\.inner\.len\(\), 1_usize\)\.0\)$', 'len - 1 is a valid index of the non-empty inner')
 add('CheckPoints::add_check_points', r'^Index\(check_points, _\)$', '`check_points[1..]` after check_points.len() < 2 returned an error', ['cmp:Lt(check_points.len(), 2_usize)'])
 add('CheckPoints::add_check_points', r'^Index\(check_points, RangeInclusive::new\(\.\.\)\)$', '`check_points[1..=len-2]` under check_points.len() > 2', ['cmp:Gt(check_points.len(), 2_usize)'])
 
@@ -170,16 +170,16 @@ add(LU, r'^bounds\(index, block_filter_hashes\.len\(\)\)$', 'start_number <= fin
     ['cmp:Ge(finalized_check_point_number, end_number)', 'cmp:Ge(finalized_check_point_number, last_proved_number)'])
 add(LU, r'^overflow\(\+\)\(index, 1_usize\)$', 'index into an in-memory slice')
 add(LU, r'^overflow\(-\)\(diff, 2_usize\)$', 'else-branch: start_number > finalized_check_point_number and != finalized + 1 => diff >= 2', ['cmp:Le(start_number, finalized_check_point_number)'])
-add(LU, r'^Index\(self\.1, index\)$', 'start_number <= last_filter_number + 1 = check_point_number + inner.len() + 1 (checked) => index = diff - 2 <= inner.len() - 1',
+add(LU, r'^Index\(self\.inner, index\)$', 'start_number <= last_filter_number + 1 = check_point_number + inner.len() + 1 (checked) => index = diff - 2 <= inner.len() - 1',
     ['cmp:Gt(start_number, Add(last_filter_number, 1_u64).0)'])
 add(LU, r'^overflow\(-\)\(start_number, 1_u64\)$', 'start_number > finalized_check_point_number >= 0 (format argument)', ['cmp:Le(start_number, finalized_check_point_number)'])
-add(LU, r'^Index\(self\.1, _\)$', 'start_index_for_old is 0 or index + 1 <= inner.len()')
+add(LU, r'^Index\(self\.inner, _\)$', 'start_index_for_old is 0 or index + 1 <= inner.len()')
 add(LU, r'^overflow\(\+\)\(start_index_for_old, index\)$', 'indices into in-memory vectors')
 add(LU, r'^overflow\(\+\)\(start_number, Add\(start_index_for_old, index\)\.0\)$', 'start_number <= last_proved_number (checked) and the offset is a vector index; format argument', ['cmp:Gt(start_number, last_proved_number)'])
 add(LU, r'^overflow\(\+\)\(start_index_for_new, Vec::index\(\.\.\)\.len\(\)\)$', 'indices / lengths of in-memory vectors')
 add(LU, r'^overflow\(\+\)\(end_number, 1_u64\)$', 'end_number < last_proved_number in this branch', ['cmp:Lt(end_number, last_proved_number)'])
 
-add('Peers::calc_check_point_number', r'^overflow\(\*\)\(self\.6, u64::from\(\.\.\)\)$', 'interval (2000) times a u32 index fits in u64')
+add('Peers::calc_check_point_number', r'^overflow\(\*\)\(self\.check_point_interval, u64::from\(\.\.\)\)$', 'interval (2000) times a u32 index fits in u64')
 add('Peers::calc_cached_check_point_index_when_sync_at', r'^div0\(', CPI)
 add('Peers::update_min_filtered_block_number', r'^overflow\(\+\)\(min_filtered_block_number, 1_u64\)$', 'the only callers pass the stored filter progress or start_number - 1 + count with start_number pinned to min_filtered + 1 (C06.r1)')
 add('Peers::get_peers_which_require_more_latest_block_filter_hashes::{closure#0}', r'^overflow\(\*\)\(.*, 2_u64\)$', 'check_point_interval * 2 (constants)')
@@ -196,8 +196,8 @@ add('if_verifiable_headers_are_same', r'^total_difficulty\((lhs|rhs)\)$', 'one s
 # ---- sampling (request building; operands are the client's own prove state / stored tip and the announced last header) ---------------
 GUARD838 = 'only reached through build_prove_request_content(_from_genesis) after `start_total_difficulty > last_total_difficulty || start_number >= last_number` returned None (C15.r1)'
 add('multiply', r'^U256\.(mul|div)\(', 'U512 arithmetic: a 256-bit value times a 32-bit numerator cannot overflow 512 bits; the divisor is the non-zero constant RATIO_SCALE_FACTOR')
-add('FlyClientPDF::random_sample', r'^U256\.add\(self\.2, multiply\(\.\.\)\)$', 'start + range * x with x < 1 is below start + range = last total difficulty')
-add('FlyClientPDF::random_sample', r'^U256\.sub\(self\.4, 1_u32\)$', 'difficulty_boundary = start + multiply(..) and multiply never returns 0')
+add('FlyClientPDF::random_sample', r'^U256\.add\(self\.start_difficulty, multiply\(\.\.\)\)$', 'start + range * x with x < 1 is below start + range = last total difficulty')
+add('FlyClientPDF::random_sample', r'^U256\.sub\(self\.difficulty_boundary, 1_u32\)$', 'difficulty_boundary = start + multiply(..) and multiply never returns 0')
 add('sample_blocks', r'^overflow\(-\)\(last_number, start_number\)$', GUARD838)
 add('sample_blocks', r'^U256\.sub\(last_difficulty, start_difficulty\)$', GUARD838)
 add('sample_blocks', r'^U256\.add\(start_difficulty, difficulty_boundary_added\)$', 'start + range * (1 - delta) <= last total difficulty')
@@ -205,7 +205,7 @@ add('sample_blocks', r'^U256\.add\(start_difficulty, difficulty_boundary_added\)
 # ---- secondary entry points (notify / connected): state left behind by messages is consumed here ---------------------------------------
 for h in ('FilterProtocol', 'LightClientProtocol', 'RelayProtocol'):
     add('<%s as CKBProtocolHandler>::notify' % h, r'^panic:panic$', 'unreachable!() on an unknown timer token: tokens are registered by the protocol itself in init()')
-add('CheckPoints::remove_first_n_check_points', r'^VecOp\(self\.2, _\)$', 'drain(..n) with n = index, which finalize_check_points checked to be < check_points.len() of the same (cloned) vector')
+add('CheckPoints::remove_first_n_check_points', r'^VecOp\(self\.inner, _\)$', 'drain(..n) with n = index, which finalize_check_points checked to be < check_points.len() of the same (cloned) vector')
 FCP = 'LightClientProtocol::finalize_check_points'
 add('LightClientProtocol::refresh_all_peers', r'^overflow\(-\)\(now, Duration::as_millis\(\.\.\)\)$', 'unix time in ms minus the constant REFRESH_PEERS_DURATION')
 add(FCP, r'^overflow\(-\)\(u32::add\(\.\.\), 1_u32\)$', 'trace-only: start index plus a non-zero length (a peer always has at least one check point, C07.r5)')
